@@ -16,6 +16,10 @@ CHECKS = {
    text='Machine-checked (axiom-free) theorem vcg_sound: for every program, assertions and states, if all VCs produced by the model of Com.compute_wp/get_vcs hold then terminating executions from pre-states end in post-states; substitution lemma; interpreter soundness. The model (including the printer) is tied to imperative/com.py, expr.py by comparing the VC strings shown to the user on random and template programs; the re-parsed VC strings are evaluated along reference-interpreter runs; print/parse round trip checked semantically; eval_Sem final states compared with the interpreter.',
    note='Trusted: Coq kernel; hand-written model kept honest by the string-level correspondence; arrays/fields/function calls/forall not modelled; the Lark parser is exercised, not modelled.',
    design='7/C20'),
+ 'C15': dict(category='proof', technique='Coq proofs: sat-answer soundness of the CDCL model, soundness of the resolution-trace checker; differential replay of solve_cnf with recorded set orders; per-instance validation of unsat traces and Tseitin equisatisfiability',
+   text='Machine-checked (axiom-free): every satisfiable answer of the model of sat.solve_cnf carries a satisfying assignment (for all clause sets, set-iteration orders, fuel); every trace accepted by check_trace refutes the clause set. The model replays solve_cnf exactly (verdict, assignment, every trace entry) on ~3000 clause sets per run (exhaustive small shapes + random up to 12 vars/60 clauses, duplicates, tautologies, empty clauses); each unsatisfiable answer of the implementation is validated by the verified checker and both verdicts by brute force; termination observed under an alarm; Tseitin encodings checked and compared with truth tables.',
+   note='Trusted: Coq kernel; model tie = differential replay; termination of CDCL and unsat-soundness of the solver model itself are not proved (unsat answers are validated per instance by the proved checker); Tseitin equisatisfiability is validated per formula.',
+   design='7/C15'),
 }
 m = {
  'version': 1,
